@@ -26,9 +26,12 @@ theorem usable_call_ok (inp : Nat → Value) (parent : String) (fd : Nat) (hfd :
   have hm0 : h.magic0 = 1095588430 := hm.1
   have hm1 : h.magic1 = 1128399360 := hm.2
   have hz' : ¬ (h.segsize < 16) := by unfold HEADER_SIZE at hz; omega
+  have hz2 : 16 ≤ h.segsize := by omega
+  have hv' : 0 < h.version := by omega
+  have hg' : 0 < h.generation := by omega
   simp (config := { maxSteps := 8000000 }) [rs_eval, rs_code, Nat.add_assoc, h0, h1, h2, h3, hfd', hfd0, hs', hsz,
-    hm0, hm1, hv, hg, hz', EmbedShm.sizes, headerValue, chkInt, HEADER_SIZE, RECORD_SIZE, openEvents, openEvents2, evSys, hc,
+    hm0, hm1, hv, hg, hz', hz2, hv', hg', EmbedShm.sizes, headerValue, chkInt, HEADER_SIZE, RECORD_SIZE, openEvents, openEvents2, evSys, hc,
     DictShm.addr]
-  split_ifs <;> simp [shmErrValue]
+  split_ifs <;> first | (simp [shmErrValue]; done) | (exfalso; omega) | (simp_all [shmErrValue]; done)
 
 end ClockBound.Rs.WriterNewProof
